@@ -38,7 +38,7 @@ type c06Case struct {
 	OnlyK    int      `json:"only_k"`         // replay: enumerate a single abort point (-1 = all)
 }
 
-var c06Scenarios = []string{"new-bug", "edit", "new-identity", "mutate-identity", "identity-several-versions", "pull-dag", "pull-dag", "cache-pull", "cache-new-edit"}
+var c06Scenarios = []string{"new-bug", "edit", "edit-many", "new-identity", "mutate-identity", "identity-several-versions", "pull-dag", "pull-dag", "cache-pull", "cache-new-edit"}
 
 func genC06(t *rapid.T) c06Case {
 	c := c06Case{Seed: rapid.Uint64().Draw(t, "seed"), OnlyK: -1}
@@ -183,6 +183,25 @@ func c06Scenario(c c06Case, repo repository.ClockedRepo, authorIds []string, sha
 			}
 			if appendOps(b, as) == 0 {
 				return nil
+			}
+			return b.Commit(repo)
+		})
+	case "edit-many":
+		// one commit of several hundred operations (an importer, a script): still one step
+		steps = append(steps, func() error {
+			as, err := authors()
+			if err != nil {
+				return err
+			}
+			b, err := bug.Read(repo, entity.Id(sharedBug))
+			if err != nil {
+				return err
+			}
+			n := 250 + int(c.Seed%120)
+			for k := 0; k < n; k++ {
+				op := bug.NewAddCommentOp(as[0], int64(50_000+k), fmt.Sprintf("bulk comment %d", k), nil)
+				op.Nonce = NonceFor(c.Seed, 4_500_000+k)
+				b.Append(op)
 			}
 			return b.Commit(repo)
 		})
